@@ -546,6 +546,22 @@ def d16_numbers_checked(db, rep, pfuncs, rule="D16-NUMBERS-CHECKED"):
                             used = True
                     if not used:
                         bad = "the end pointer `%s` is never examined" % ev
+            # a long squeezed into an int: the range must be looked at too (4294967298 is not 2)
+            if bad is None and c.name in ("strtol", "strtoll", "strtoul") and ("int" == (f.ret or "").strip() or True):
+                narrowed = (f.ret or "").strip() == "int" or any(x.k == "VarDecl" and (x.ty or "") == "int" and x.c and x.c[0] is not None and any(y.id == c.id for y in x.c[0].walk()) for x in f.walk()) \
+                    or any(x.k == "BinaryOperator" and x.op == "=" and (strip_casts(x.c[0]).ty or "") == "int" and any(y.id == c.id for y in x.c[1].walk()) for x in f.walk())
+                if narrowed:
+                    ranged = False
+                    for blk in f.blocks.values():
+                        if blk.cond is None:
+                            continue
+                        for y in blk.cond.walk():
+                            if y.v is not None and abs(y.v) >= 2147483647:
+                                ranged = True
+                            if y.k == "BinaryOperator" and y.op in ("==", "!=") and strip_casts(y.c[1]) is not None and strip_casts(y.c[1]).v == 34 and "errno" in unparse(y.c[0]):
+                                ranged = True
+                    if not ranged:
+                        bad = "its long result is narrowed to int without a range test (neither ERANGE nor INT_MIN/INT_MAX is looked at)"
             rep.check(bad is None, rule, where(f), "%s(%s)@%s" % (c.name, unparse(src)[:30], c.line),
                       "the conversion reports how much of the token it took and the handler looks at it",
                       "%s converts the token `%s` with %s, but %s: a token that is not a number (`.source abc s1`, `align zz`, `.n mult q`) is taken as 0 "
